@@ -7,7 +7,7 @@
      - floats print without White_Space and without any of , : | / [ ] v or the double quote,
        and a finite value parses back to exactly itself (shortest round-trip
        printing); integer-valued f64 up to 2^31 print like the integer.
-   Everything else is derived here. *)
+   All three never print the empty text.  Everything else is derived here. *)
 From RM Require Import Model.EncSpec Proofs.EncText Proofs.FloatCmp Proofs.NumFacts.
 From RM Require Import Gen.Generated.
 From Flocq Require Import BinarySingleNaN.
@@ -16,13 +16,16 @@ Open Scope Z_scope.
 
 Record fmt_ok (fmt_f64 : F64 -> str) (fmt_f32 : F32 -> str) (fmt_int : Z -> str) : Prop := mkFmtOk {
   int_chars : forall n, forallb int_char (fmt_int n) = true;
+  int_nonempty' : forall n, fmt_int n <> [];
   int_parse : forall n, i32_min <= n <= i32_max -> parse_i32_raw (fmt_int n) = Some n;
   int_parse_u8 : forall n, 0 <= n <= 255 -> parse_u8_raw (fmt_int n) = Some n;
   int_digit : forall d, 0 <= d <= 9 -> fmt_int d = [48 + d];
   f64_chars : forall x, forallb plainc (fmt_f64 x) = true;
+  f64_nonempty : forall x, fmt_f64 x <> [];
   f64_parse : forall x, is_finite x = true -> parse_f64_raw (fmt_f64 x) = Some x;
   f64_int : forall n, - 2 ^ 31 <= n <= 2 ^ 31 -> fmt_f64 (D.of_Z n) = fmt_int n;
   f32_chars : forall x, forallb plainc (fmt_f32 x) = true;
+  f32_nonempty : forall x, fmt_f32 x <> [];
   f32_parse : forall x, is_finite x = true -> parse_f32_raw (fmt_f32 x) = Some x
 }.
 
